@@ -260,3 +260,25 @@ EXTRA4 = {
 for _pid, _txt in EXTRA4.items():
     if _pid in CHECKS and _txt not in CHECKS[_pid]['text']:
         CHECKS[_pid]['text'] += _txt
+
+# additions after the fifth round of seeded changes
+EXTRA5 = {
+    'C01': ' Nested template 12: the block product rules with the LEFT container the shallower one.',
+    'C02': ' The quick tier always replays the sessions in which the third operand is a view (inverse / transpose) of one of '
+           'the first two, in both groupings.',
+    'C05': ' A mixed-dtype mode (64-bit, float32 and float64 leaves in one pytree) replays the leaf-wise subjects; scaled '
+           'subjects are built through the dunder with a weakly typed Python scalar.',
+    'C08': ' An indefinite symmetric Toeplitz atom keeps the positive-semidefinite tag honest.',
+    'C14': ' Injected strings with an upper-case batch letter next to the lower-case contracted letter.',
+    'C16': ' Pointings within a milliradian of either pole come from a Python transcription of FxPointing (integers beyond 32 '
+           'bits) that must reproduce every case TLC emits.',
+    'C17': ' Coordinates far outside the map along a slow axis (stride products beyond 2^32) must still give -1.',
+    'C18': ' Every fresh subject is also passed as an argument to a filtering jit (short Toeplitz operators with the default FFT '
+           'size included); the shared filtering jit also sees k * op for Python scalars equal in value and different in type.',
+    'C19': ' Clause captured_in_transposed_view: the lazy inverse inside inv.T still holds the capture.',
+    'C20': ' dot(x, x) with one object on both sides; adding a zero scalar on either side of float and integer containers is '
+           'compared with the leaf-wise result.',
+}
+for _pid, _txt in EXTRA5.items():
+    if _pid in CHECKS and _txt not in CHECKS[_pid]['text']:
+        CHECKS[_pid]['text'] += _txt
